@@ -3,6 +3,7 @@ CONSTANTS
   MAXU = 7
   W = 3
   Denoms = {1, 2, 3, 7}
+  Mins = {0, 1, 3, 7}
   Sinces = {0, 2, 3, 4, 6, 7}
 INVARIANTS OriginalAgrees
 CHECK_DEADLOCK FALSE
